@@ -1,0 +1,181 @@
+//! Scripted heap for verification (only compiled with the `verif-hooks`
+//! feature). It drives the real collector with a test node type so that an
+//! external harness can compare the surviving set with a reachability model.
+
+use std::cell::RefCell;
+use std::rc::Rc;
+
+use super::{Gc, GcContext, GcTrace, GcTraceCtx, GcView};
+
+struct Node {
+    id: u32,
+    edges: RefCell<Vec<Gc<Node>>>,
+    drop_log: Rc<RefCell<Vec<u32>>>,
+}
+
+impl Drop for Node {
+    fn drop(&mut self) {
+        self.drop_log.borrow_mut().push(self.id);
+    }
+}
+
+impl GcTrace for Node {
+    fn trace<'a>(&self, ctx: &mut impl GcTraceCtx<'a>)
+    where
+        Self: 'a,
+    {
+        self.edges.trace(ctx);
+    }
+}
+
+enum Handle {
+    Weak(Gc<Node>),
+    Strong(GcView<Node>),
+}
+
+impl Handle {
+    fn view(&self) -> GcView<Node> {
+        match self {
+            Self::Weak(gc) => gc.view(),
+            Self::Strong(view) => view.clone(),
+        }
+    }
+}
+
+/// A heap of test nodes managed by the real collector.
+///
+/// Handles are kept in a flat table and named by their index; a dropped
+/// handle leaves a `None` slot so that indices stay stable.
+pub struct ScriptedHeap {
+    // Declared before `ctx` so that handles are released first on drop.
+    handles: Vec<Option<Handle>>,
+    ctx: GcContext<'static>,
+    drop_log: Rc<RefCell<Vec<u32>>>,
+    next_id: u32,
+}
+
+impl Default for ScriptedHeap {
+    fn default() -> Self {
+        Self::new()
+    }
+}
+
+impl ScriptedHeap {
+    pub fn new() -> Self {
+        Self {
+            handles: Vec::new(),
+            ctx: GcContext::new(),
+            drop_log: Rc::new(RefCell::new(Vec::new())),
+            next_id: 0,
+        }
+    }
+
+    fn new_node(&mut self) -> Node {
+        let id = self.next_id;
+        self.next_id += 1;
+        Node {
+            id,
+            edges: RefCell::new(Vec::new()),
+            drop_log: self.drop_log.clone(),
+        }
+    }
+
+    /// Allocates a node; returns `(node id, handle index)`.
+    pub fn alloc(&mut self, strong: bool) -> (u32, usize) {
+        let node = self.new_node();
+        let id = node.id;
+        let handle = if strong {
+            Handle::Strong(self.ctx.alloc_view(node))
+        } else {
+            Handle::Weak(self.ctx.alloc(node))
+        };
+        self.handles.push(Some(handle));
+        (id, self.handles.len() - 1)
+    }
+
+    fn handle(&self, h: usize) -> &Handle {
+        self.handles[h].as_ref().expect("handle was dropped")
+    }
+
+    pub fn handle_is_live(&self, h: usize) -> bool {
+        self.handles.get(h).is_some_and(|h| h.is_some())
+    }
+
+    /// Node id behind a handle (accesses the node).
+    pub fn node_id(&self, h: usize) -> u32 {
+        self.handle(h).view().id
+    }
+
+    /// Ids of the edge targets of the node behind handle `h` (accesses them).
+    pub fn edges(&self, h: usize) -> Vec<u32> {
+        let view = self.handle(h).view();
+        let edges = view.edges.borrow();
+        edges.iter().map(|e| e.view().id).collect()
+    }
+
+    /// Adds an edge from the node behind `src` to the node behind `dst`.
+    pub fn add_edge(&mut self, src: usize, dst: usize) {
+        let dst_gc = match self.handle(dst) {
+            Handle::Weak(gc) => gc.clone(),
+            Handle::Strong(view) => Gc::from(view),
+        };
+        self.handle(src).view().edges.borrow_mut().push(dst_gc);
+    }
+
+    /// Removes the `index`-th edge of the node behind `src`.
+    pub fn del_edge(&mut self, src: usize, index: usize) {
+        self.handle(src).view().edges.borrow_mut().remove(index);
+    }
+
+    /// Creates a new weak handle from the `index`-th edge of the node behind
+    /// `src`; returns the new handle index.
+    pub fn take_edge(&mut self, src: usize, index: usize) -> usize {
+        let gc = self.handle(src).view().edges.borrow()[index].clone();
+        self.handles.push(Some(Handle::Weak(gc)));
+        self.handles.len() - 1
+    }
+
+    /// Duplicates a handle (same strength); returns the new handle index.
+    pub fn clone_handle(&mut self, h: usize) -> usize {
+        let new = match self.handle(h) {
+            Handle::Weak(gc) => Handle::Weak(gc.clone()),
+            Handle::Strong(view) => Handle::Strong(view.clone()),
+        };
+        self.handles.push(Some(new));
+        self.handles.len() - 1
+    }
+
+    /// Creates a strong handle from any handle; returns the new handle index.
+    pub fn upgrade(&mut self, h: usize) -> usize {
+        let view = self.handle(h).view();
+        self.handles.push(Some(Handle::Strong(view)));
+        self.handles.len() - 1
+    }
+
+    /// Creates a weak handle from any handle; returns the new handle index.
+    pub fn downgrade(&mut self, h: usize) -> usize {
+        let gc = match self.handle(h) {
+            Handle::Weak(gc) => gc.clone(),
+            Handle::Strong(view) => Gc::from(view),
+        };
+        self.handles.push(Some(Handle::Weak(gc)));
+        self.handles.len() - 1
+    }
+
+    pub fn drop_handle(&mut self, h: usize) {
+        self.handles[h] = None;
+    }
+
+    pub fn gc(&mut self) {
+        self.ctx.gc();
+    }
+
+    pub fn num_objects(&self) -> usize {
+        self.ctx.num_objects()
+    }
+
+    /// Ids of the nodes destroyed so far, in destruction order.
+    pub fn dropped(&self) -> Vec<u32> {
+        self.drop_log.borrow().clone()
+    }
+}
